@@ -4,6 +4,7 @@
 (* Every behaviour was executed twice, with canonical and with re-spelled  *)
 (* SKIs.  Formulas:                                                        *)
 (*  C15  the two runs are indistinguishable step by step                   *)
+(*  C01  the hub holds a service trusted only on the user's word            *)
 (*  C10  dial only with user intent, never after Shutdown; unregister       *)
 (*       closes the registered connection and clears trust; cancel aborts   *)
 (*  C11  the end of a connection object removes exactly its own registry    *)
@@ -31,6 +32,12 @@ Intent(run, i, k) ==    \* user intent for k before step i: registered (or trust
     IN  idx # {} /\ LET m == CHOOSE j \in idx : \A j2 \in idx : j2 <= j IN run.steps[m].a.a \in {"Register", "StateUpdate"}
 ShutBefore(run, i) == \E j \in 1..(i - 1) : run.steps[j].a.a = "Shutdown"
 
+\* the handshake state connection object c was in before step i: its latest StateUpdate, else the state it was created in
+ConnSt(run, i, c) ==
+    LET ups == {j \in 1..(i - 1) : run.steps[j].a.a = "StateUpdate" /\ run.steps[j].a.i = c}
+    IN  IF ups = {} THEN run.steps[NewConnSteps(run)[c]].a.s
+        ELSE run.steps[CHOOSE j \in ups : \A j2 \in ups : j2 <= j].a.s
+
 ConnStr(j, c) == "conn" \o ToString(j) \o "." \o c
 
 JudgeStep(run, i) ==
@@ -47,6 +54,10 @@ JudgeStep(run, i) ==
         b4 == IF a.a = "Cancel"
               THEN (IF PreSvc(run, i, a.k).reg # 0 /\ ~Has(s.out, ConnStr(PreSvc(run, i, a.k).reg, "Abort"))
                     THEN {<<"C10", "cancel-did-not-abort">>} ELSE {})
+                   \* a connection that cannot be aborted (it is not, or no longer, waiting in its hello phase) must not go on
+                   \cup (IF PreSvc(run, i, a.k).reg # 0 /\ ConnSt(run, i, PreSvc(run, i, a.k).reg) \notin {"AbortDone", "RemoteAbortDone", "Error", "ReadyListen", "PendingListen"}
+                            /\ ~Has(s.out, ConnStr(PreSvc(run, i, a.k).reg, "Close:safe:4500"))
+                         THEN {<<"C10", "cancel-left-a-connection-that-cannot-be-aborted">>} ELSE {})
                    \cup (IF s.svc[a.k].trusted THEN {<<"C10", "cancel-left-trusted">>} ELSE {})
               ELSE {}
         b5 == IF a.a = "Closed"
@@ -57,7 +68,10 @@ JudgeStep(run, i) ==
                        \cup (IF pre # 0 /\ pre # a.i /\ Has(s.out, "Disconnected:" \o k)
                              THEN {<<"C11", "disconnect-notified-for-stale-connection">>} ELSE {})
               ELSE {}
-    IN  b1 \cup b2 \cup b3 \cup b4 \cup b5
+        \* C01 at the hub: whatever happened, the hub calls a service trusted (and answers its connections 'paired') only while
+        \* the user's last word for it is Register, or trust was earned in a handshake after that
+        b6 == {<<"C01", "hub-trusts-a-service-without-the-users-word", k, a.a>> : k \in {k \in Skis : s.svc[k].trusted /\ ~Intent(run, i + 1, k)}}
+    IN  b1 \cup b2 \cup b3 \cup b4 \cup b5 \cup b6
 
 \* the last set-up / disconnect notification of k in the whole run: "Setup", "Disconnected" or "none"
 LastWord(run, k) ==
